@@ -255,6 +255,11 @@ class MibCompiler(object):
                         if mibname in failedMibs:
                             del failedMibs[mibname]
 
+                            # an earlier source failed on this MIB, this one
+                            # did not: forget the failure report as well
+                            if processed.get(mibname) == statusFailed:
+                                del processed[mibname]
+
                         mibsToParse.extend(mibInfo.imported)
 
                         if fileInfo.name in mibnames:
